@@ -476,6 +476,8 @@ def deleg_slice(ctx, facts, fid, finisher=None, rule="DELEG"):
             ctx.violation(rule, fid, "finisher order", hirq.loc(fc), "the finisher must come after the per-element loop")
             return
         allowed_mut.add(id(fc))
+        from . import C09 as _C09
+        _C09.report_checked(ctx, fn, fid, fc)
     others = [n for (n, _k) in mutating_self_calls(fn) if id(n) not in allowed_mut]
     ws = writes_to_self(fn)
     if others or ws:
